@@ -327,7 +327,7 @@ def run(ctx, replay=None):
     except Exception as e:
         ctx.notes.append('gcov failed: %s' % e)
     ctx.cov['correspondence_mismatches'] = corr_bad
-    ctx.cov['exhaustive'] = ('all strings of length <= %d over %s for trim/trim_head/trim_tail/rev; all single bytes + case alphabet for upper/lower; '
+    ctx.cov['exhaustive_sweeps'] = ('all strings of length <= %d over %s for trim/trim_head/trim_tail/rev; all single bytes + case alphabet for upper/lower; '
                              'all (src<=5, tok 1..3, word<=3) over a 2-3 letter alphabet x 4 modes for replace; all sizes 0..n+2 x nbytes 0..n+1 for the copies; '
                              'all offsets x sizes 1..rest+2 for qstrgets; all offsets x 5 delimiter sets for qstrtok' % (4 if ctx.tier == 'quick' else 5, [hex(x) for x in ALPH]))
     ctx.assumptions += ['every string argument sits in a buffer of exactly strlen+1 bytes ending at an inaccessible page; destination buffers have exactly the stated size',
